@@ -128,7 +128,8 @@ def main():
                 "replay_cmd_template": "./run.sh explain {path}",
                 "engine": "svclint",
                 "level_claimed": {"category": "other", "text": text, "design_ref": ref},
-                "level_note": note,
+                "level_note": note + " Every check also decides the shared preconditions S1 (no mutable module state outside the store in entry-reachable code), "
+                              "S2 (records decoded in loops go into fresh targets) and S3 (no pointer to a loop variable outlives its iteration), on which reading state off store operations relies.",
                 "technique": "static analysis: " + tech,
             })
         else:
